@@ -461,7 +461,8 @@ impl Scenario for C04 {
                 break;
             }
 
-            let statuses = out.iter().filter_map(|t| t.frag()).filter_map(status_bytes).next();
+            // (unsolicited responses of the configurations that have them carry no control echo)
+            let statuses = out.iter().filter_map(|t| t.frag()).filter(|f| f.len() >= 2 && f[0] & app::UNS == 0).filter_map(status_bytes).next();
             match expect_exec {
                 Some((Verdict::Must, count)) => {
                     if sbo.len() != count {
@@ -606,10 +607,27 @@ fn scenarios(tier: &str) -> Vec<C04> {
         start_seq: 0,
         cfg: OCfg { max_controls: Some(2), ..C04::cfg() },
     });
+    // requests that span two transport segments (25 controls, 304 octets), echo fits
+    // (a broadcast request must fit one segment, so the broadcast letter is left out: a
+    // two-segment broadcast never becomes a fragment)
+    let h_alphabet = || -> Vec<Ev> { reduced_alphabet(Obj::H).into_iter().filter(|e| !matches!(e, Ev::DirectNr(_, Src::Broadcast))).collect() };
+    v.push(mk("reducedH-d3-seq0", h_alphabet(), 3, 0));
+    // unsolicited reporting configured and its first (null) response never confirmed: the
+    // select / operate rules are those of the idle state
+    v.push(C04 {
+        name: "unsol-reducedA-d3-seq0".to_string(),
+        // (without the retransmission letters: in this state the library echoes a repeated SELECT
+        // but then refuses the OPERATE, which the statement allows -- it demands execution only for
+        // a SELECT directly followed by its OPERATE)
+        alphabet: reduced_alphabet(Obj::A).into_iter().filter(|e| !matches!(e, Ev::Repeat | Ev::Select(_, SeqSel::Same, _))).collect(),
+        depth: 3,
+        start_seq: 0,
+        cfg: OCfg { unsolicited: true, ..C04::cfg() },
+    });
     // a transmit buffer of 249 octets and a request of 25 controls: the echo does not fit
     v.push(C04 {
         name: "tx249-reducedH-d3-seq0".to_string(),
-        alphabet: reduced_alphabet(Obj::H),
+        alphabet: h_alphabet(),
         depth: 3,
         start_seq: 0,
         cfg: OCfg { sol_tx: 249, ..C04::cfg() },
